@@ -75,11 +75,22 @@ def impl(case):
             edges.append((src, f"n{t}/{tk}/r_in", None, d))
         dt = float(Fr(case["dt"]))
         c = CircuitTemplate("c", nodes=nodes, edges=edges)
+        # the documented `decorator=` option of run() / get_run_func(): a pass-through wrapper must not change anything (in particular
+        # it must not make the vector field run an extra time: the ring buffers of discrete delays are its only state)
+        deco_kw = {}
+        if case.get("decorator"):
+            def passthrough(f, tag=None):
+                def wrapped(*args):
+                    return f(*args)
+                return wrapped
+            deco_kw = {"decorator": passthrough}
+            if case["decorator"] == "kwargs":
+                deco_kw["decorator_kwargs"] = {"tag": 1}
         kw = {"dde_approx": case["dde"]} if case.get("dde") else {}
         try:
             r = c.run(simulation_time=case["steps"] * dt, step_size=dt, solver=case.get("solver", "euler"), outputs=outs,
                       vectorize=case["vectorize"], float_precision="float64", backend="default", clear=True, verbose=False,
-                      in_place=False, **kw)
+                      in_place=False, **kw, **deco_kw)
         except (IndexError, ValueError, KeyError, TypeError, AttributeError, NameError, PyRatesException) as e:
             return {"raised": type(e).__name__, "msg": str(e)[:160]}
         cols = [f"n{i}" for i in range(len(case["nodes"]))] + [f"tap{j}" for j in range(len(case.get("taps", [])))]
@@ -358,6 +369,8 @@ def gen_case(rng, kind="valid"):
             ie = [i for i, e in enumerate(edges) if e[3] != "nokey" and Fr(e[3][0]).denominator == 1 and rng.random() < 0.4]
             if ie:
                 case["int_edges"] = ie
+        if kind in ("valid", "mixkinds") and rng.random() < 0.15:
+            case["decorator"] = rng.choice([True, "kwargs"])
         if exact_ok(case):
             if kind == "scaled":
                 return rescale(case, rng.choice([-6, -3, 3, 8, 10, 10, 11, 12, 13]))
@@ -664,7 +677,7 @@ def check(ctx):
                    show=lambda c: dict(implementation_output=fails(ctx, c, "show")[1], model_output=model_outputs(ctx, c, "show")))
     nt = {canon(c) for i, c in enumerate(cases) if nontrivial(c) and i in in_guard}
     orders = sorted({rhe((Fr(e[3][0]) / Fr(e[3][1])) ** 2) for c in cases for e in c["edges"] if e[3] != "nokey" and len(e[3]) == 2})
-    hist = dict(time_scales=sorted({c.get("scale", 0) for c in cases}), adaptive_stream=len(acases), with_taps=sum(1 for c in cases if c.get("taps")), int_delays=sum(1 for c in cases if c.get("int_edges") or c.get("int_conn")),
+    hist = dict(with_decorator=sum(1 for c in cases if c.get("decorator")), time_scales=sorted({c.get("scale", 0) for c in cases}), adaptive_stream=len(acases), with_taps=sum(1 for c in cases if c.get("taps")), int_delays=sum(1 for c in cases if c.get("int_edges") or c.get("int_conn")),
                 connectivity=len(ci), connectivity_multi=sum(1 for i in ci if len(cases[i]["conns"]) > 1),
                 connectivity_same_delay_other_spread=sum(1 for i in ci if any(a["d"] == b["d"] and a["s"] != b["s"] for a in cases[i]["conns"] for b in cases[i]["conns"])), vectorized=sum(1 for c in cases if c["vectorize"]), dde_approx=sorted({c.get("dde", 0) for c in cases}),
                 in_guard=len(in_guard), guard_violating={g: len(gfalse[g]) for g in GUARDS}, orders=orders,
